@@ -56,6 +56,9 @@ func (m *Monitor) Snapshot() ([]string, []spec.Req) {
 	return append([]string(nil), m.Violations...), append([]spec.Req(nil), m.Arrivals...)
 }
 
+// ErrWriteTimeout is what a Write returns that starts after the connection's write deadline (as a net.Conn does).
+var ErrWriteTimeout error = &net.OpError{Op: "write", Net: "arrival", Err: timeoutErr{}}
+
 // ArrivalConn answers complete request frames in arrival order.
 type ArrivalConn struct {
 	M        *Monitor
@@ -65,9 +68,11 @@ type ArrivalConn struct {
 	yields   []int
 	closed   bool
 	deadline time.Time
-	busy     int       // number of transport calls currently inside Read/Write (overlap detection)
-	owner    spec.Req  // request whose reply is pending
-	readyAt  time.Time // the pending reply becomes readable at this time
+	// wdeadline: the write deadline; a Write that starts after it fails with a timeout and nothing reaches the device
+	wdeadline time.Time
+	busy      int       // number of transport calls currently inside Read/Write (overlap detection)
+	owner     spec.Req  // request whose reply is pending
+	readyAt   time.Time // the pending reply becomes readable at this time
 	// ops is touched WITHOUT any lock by every transport call (Read, Write, Flush, Close), like the internal state of a port or
 	// connection object that is not safe for concurrent use: under the race detector two transport calls that are not ordered
 	// by the client's own synchronisation are reported even if they do not overlap in time
@@ -109,6 +114,10 @@ func (c *ArrivalConn) Write(p []byte) (int, error) {
 	if c.closed {
 		m.mu.Unlock()
 		return 0, net.ErrClosed
+	}
+	if !c.wdeadline.IsZero() && !time.Now().Before(c.wdeadline) {
+		m.mu.Unlock()
+		return 0, ErrWriteTimeout
 	}
 	c.busy++
 	if c.busy > 1 {
@@ -275,10 +284,18 @@ func (c *ArrivalConn) Close() error {
 	return nil
 }
 
-func (c *ArrivalConn) LocalAddr() net.Addr                { return addr("local") }
-func (c *ArrivalConn) RemoteAddr() net.Addr               { return addr("remote") }
-func (c *ArrivalConn) SetDeadline(t time.Time) error      { return c.SetReadDeadline(t) }
-func (c *ArrivalConn) SetWriteDeadline(t time.Time) error { return nil }
+func (c *ArrivalConn) LocalAddr() net.Addr  { return addr("local") }
+func (c *ArrivalConn) RemoteAddr() net.Addr { return addr("remote") }
+func (c *ArrivalConn) SetDeadline(t time.Time) error {
+	_ = c.SetWriteDeadline(t)
+	return c.SetReadDeadline(t)
+}
+func (c *ArrivalConn) SetWriteDeadline(t time.Time) error {
+	c.M.mu.Lock()
+	c.wdeadline = t
+	c.M.mu.Unlock()
+	return nil
+}
 func (c *ArrivalConn) SetReadDeadline(t time.Time) error {
 	c.M.mu.Lock()
 	c.deadline = t
